@@ -26,7 +26,7 @@ read_obj: `MaybeUninit::<T>::uninit()` / `assume_init()` resolve to a model type
 with the PROVED precondition N <= size_of::<T>().  `read_exact` (std default method) is a hand copy of the std text, VERIFIED on top of
 the extracted `read` and canaried (opt-in `Raw.canary`, vx/build.py).  Result: Ok iff size_of::<T>() bytes remain, then the cursor
 advances by exactly that and the value's image is the next bytes of the request; on Err std's read_exact has consumed ALL remaining
-bytes ([C04.reader.read_obj.short_consumes_rest] - what the code does; confirmed on the real crate).
+bytes ([pin.reader.read_obj.short_consumes_rest] - what the code does, a pin tag: no property; confirmed on the real crate).
 
 write_vectored / write_obj (C17): rules R40 / R42 (fold, filter in `for`), the contract of `write` as proved in unit virtiofsw, std's
 `write_all` as a verified + canaried hand copy.  Whatever happens the dirty log grows by exactly the addresses the cursor moved over;
@@ -421,7 +421,7 @@ def exact_contract(op, n, delivered):
         '%s && r is Ok ==> %s // [C04.reader.%s.advance]' % (NO_OVF, advance(n), op),
         '%s && r is Ok && %s > 0 ==> %s =~= bytes_at(%s.subrange(0, %s as int)) // [C04.reader.%s.delivered_in_order]' % (NO_OVF, n, delivered, OLDW, n, op),
         # what the code does when fewer than n bytes remain: std's read_exact has consumed ALL of them before it reports UnexpectedEof
-        '%s && r is Err ==> %s // [C04.reader.%s.short_consumes_rest]' % (NO_OVF, advance('%s.len()' % OLDW), op),
+        '%s && r is Err ==> %s // [pin.reader.%s.short_consumes_rest]' % (NO_OVF, advance('%s.len()' % OLDW), op),
     ]
 
 
@@ -451,7 +451,7 @@ def std_read_exact(canary=False):
                     k <= all.len() && self.buffers.bytes_consumed == bc0 + k && cells(self.buffers.buffers@) =~= all.skip(k) // [C04.reader.read_exact.loop.advance]
                     && dfin =~= bytes_at(all.subrange(0, k)) + final(buf)@ }), // [C04.reader.read_exact.loop.delivered_in_order]
             ensures
-                buf@.len() > 0 && novf ==> dst0.len() - buf@.len() == all.len(), // [C04.reader.read_exact.loop.short_consumes_rest]
+                buf@.len() > 0 && novf ==> dst0.len() - buf@.len() == all.len(), // [pin.reader.read_exact.loop.short_consumes_rest]
         {
             let ghost k = dst0.len() - buf@.len();
             proof {
